@@ -194,6 +194,19 @@ func (p *Pipe) Len() int {
 	return p.b.Len()
 }
 
+// Discard drops the unread portion of the pipe and returns its length.
+// Reads that follow see an empty pipe.
+func (p *Pipe) Discard() int {
+	p.mu.Lock()
+	defer p.mu.Unlock()
+	if p.b == nil {
+		return 0
+	}
+	n := p.b.Len()
+	p.b.Reset()
+	return n
+}
+
 // Release() releases underlying fixed buffer
 func (p *Pipe) Release(pool *sync.Pool) {
 	p.mu.Lock()
